@@ -93,6 +93,7 @@ def check_history(case, stats):
     dialects_before = copy.deepcopy(LIVE) if case.get("check_dialects") else None
     perturbed = False
     nt = False
+    kept = []  # (index, result object as returned, snapshot taken when it was returned)
     for i, (text, stop) in enumerate(items):
         r = gh.parse(text, parser=parser, matcher=matcher, stop=stop) if own else parse_default(parser, text, stop)
         got = norm_result(r)
@@ -102,6 +103,8 @@ def check_history(case, stats):
         if got != want:
             raise Violation(case, "document #%d of the history parsed with used instances differs from fresh instances: %s" % (
                 i, diff_text(got, want, "reused", "fresh")))
+        if r[0] == "ok":
+            kept.append((i, r[1], copy.deepcopy(r[1])))
         if got[0] == "ok":
             pk = pickles_norm(compiler, got[1])
             pk2 = pickles_norm(gh.Compiler(), want[1])
@@ -109,6 +112,9 @@ def check_history(case, stats):
                 raise Violation(case, "pickles of document #%d from a used compiler differ from a fresh compiler's, %s" % (i, diff_text(pk, pk2, "reused", "fresh")))
         if r[0] != "ok" or "language:" in text or '"""' in text or "```" in text:
             perturbed = True
+    for i, obj, snap in kept:
+        if obj != snap:
+            raise Violation(case, "the document returned for #%d of the history was modified by later parses with the same instances: %s" % (i, diff_text(obj, snap, "now", "when returned")))
     if dialects_before is not None and LIVE != dialects_before:
         raise Violation(case, "parsing modified the shared language table")
     stats.case(case, nt, sample={"default": dflt, "history": case.get("names") or [t[:40] for t, _ in items]}, labels=["len=%d" % len(items), dflt])
@@ -147,6 +153,60 @@ def unit_sampled(a):
     stats = Stats()
     strat = st.binary(min_size=3500, max_size=3500).map(lambda b: g_history(Src(b)))
     hyp(stats, strat, check_history, a["n"], shard_seed(a["seed"], a["shard"], 15))
+    return stats
+
+
+# ------------------------------------------------------------------ one matcher across dialects that share a keyword with another meaning
+def shared_keyword_pairs():
+    """[(d1, d2, keyword)]: step keywords listed in both dialects with different keyword types, title keywords with different roles"""
+    from vlib.refs import DIALECTS, STEP_CATS, TITLE_CATS, step_keyword_type
+    out = []
+    names = sorted(DIALECTS)
+    info = {}
+    for d in names:
+        m = {}
+        for c in STEP_CATS:
+            for k in DIALECTS[d][c]:
+                m.setdefault(k, ("step", step_keyword_type(d, k)))
+        for c in TITLE_CATS:
+            for k in DIALECTS[d][c]:
+                m.setdefault(k + ":", ("title", "scenario" if c == "scenarioOutline" else c))
+        info[d] = m
+    for i, d1 in enumerate(names):
+        for d2 in names[i + 1:]:
+            for k in info[d1]:
+                if k in info[d2] and info[d1][k] != info[d2][k] and k != "* ":
+                    out.append((d1, d2, k))
+    return out
+
+
+def doc_using(d, k):
+    from vlib.refs import DIALECTS
+    D = DIALECTS[d]
+    head = "# language: %s\n%s: f\n" % (d, D["feature"][0])
+    if k.endswith(":") and any(k[:-1] in D[c] for c in ("feature", "rule", "background", "scenario", "scenarioOutline", "examples")):
+        kw = k[:-1]
+        if kw in D["feature"]:
+            return "# language: %s\n%s: f\n" % (d, kw)
+        if kw in D["examples"]:
+            return head + " %s: o\n  %sx\n  %s: e\n   | a |\n   | 1 |\n" % (D["scenarioOutline"][0], D["given"][-1], kw)
+        return head + " %s: t\n" % kw
+    return head + " %s: s\n  %sx\n  %sy\n  %sz\n" % (D["scenario"][0], D["given"][-1], k, k)
+
+
+def unit_shared_keywords(a):
+    stats = Stats()
+    pairs = shared_keyword_pairs()
+    stats.notes["dialect_pairs_sharing_a_keyword_with_another_meaning"] = len(pairs)
+
+    def gen():
+        for n, (d1, d2, k) in enumerate(pairs):
+            if n % a["nshards"] != a["shard"]:
+                continue
+            for x, y in ((d1, d2), (d2, d1)):
+                yield {"sub": "history", "default": "en", "names": ["%s uses %r" % (x, k), "%s uses %r" % (y, k)], "items": [[doc_using(x, k), False], [doc_using(y, k), False], [doc_using(x, k), False]],
+                       "own_matcher": True}
+    sweep(stats, gen(), check_history)
     return stats
 
 
@@ -420,6 +480,7 @@ def run(ctx):
     ctx.units("determinism-hashseeds", unit_determinism, [{}])
     ctx.units("pool-pairs-triples", unit_pool, [{"lengths": [2, 3], "sample": 3 if q else 0, "seed": ctx.seed, "shard": i, "nshards": ns} for i in range(ns)], procs=ns)
     ctx.units("stream-pool-pairs-triples", unit_stream_pool, [{"lengths": [2, 3], "sample": 0, "seed": ctx.seed, "shard": i, "nshards": ns} for i in range(ns)], procs=ns)
+    ctx.units("shared-keyword-dialect-pairs", unit_shared_keywords, [{"shard": i, "nshards": ns} for i in range(ns)], procs=ns)
     ctx.units("sampled-histories", unit_sampled, [{"n": 180 if q else 2000, "seed": ctx.seed, "shard": i} for i in range(8 if q else 16)], procs=16)
     ctx.units("matcher-reset", unit_reset, [{"n": 1500 if q else 8000, "seed": ctx.seed, "shard": i} for i in range(8 if q else 16)], procs=16)
     ctx.units("interleavings-exhaustive", unit_schedules, [{"maxreads": 4 if q else 6, "shard": i, "nshards": ns} for i in range(ns)], procs=ns)
